@@ -1,4 +1,5 @@
 import OAuth2Model.Model.Form
+import OAuth2Model.Model.Json
 /-
 M14 — the bundled HTTP adapters (src/reqwest_client.rs, src/curl_client.rs, src/ureq_client.rs).
 
@@ -13,7 +14,12 @@ What is modelled and what is not (DESIGN §5 C09, level "proof — partial"):
   and `glue` (engine result → `Result<HttpResponse, HttpClientError<_>>`), statement by statement.
 
 Two versions of the ureq glue exist: `Version.pinned` is the pinned tree, `Version.fixed` is the
-tree after `fixes/F4-ureq-status.patch`.  Theorems are stated for both (Props/C09.lean).
+current tree (fix commits 834518e — F4, `Error::Status` handed on as a response — and F7 — a Content-Type the engine
+hides is an error, not "no Content-Type").  Theorems are stated for both (Props/C09.lean).
+
+What an engine SHOWS of the reply's Content-Type is part of the assumed contract (`headFor`): reqwest hands over the
+raw bytes; libcurl's `content_type()` fails unless the value is valid UTF-8; ureq 2.x's `header()` yields nothing
+unless every byte is visible ASCII, blank or TAB — while `headers_names()` still lists the header.
 -/
 namespace Adapter
 abbrev Bytes := Form.Bytes
@@ -34,10 +40,14 @@ structure WireReply where
   body : Bytes
 deriving DecidableEq, Repr
 
-/-- status line + the one header the glue looks at -/
+/-- status line + the one header the glue looks at, AS THE ENGINE SHOWS IT. `ctHidden`: a Content-Type header is
+present but the engine yields no value for it (ureq 2.x `Response::header`); then `contentType = none`.
+`ctUnreadable`: asking the engine for the value fails (libcurl `content_type()` on bytes that are not UTF-8). -/
 structure Head where
   status : Nat
   contentType : Option Bytes
+  ctHidden : Bool := false
+  ctUnreadable : Bool := false
 deriving DecidableEq, Repr
 
 /-- server misbehaviour.
@@ -118,6 +128,16 @@ def copyAll (h : Head) (body : Option Bytes) (bodyErr : Err) : Outcome :=
   | none => .error bodyErr
   | some b => .ok { status := h.status, contentType := h.contentType, body := b }
 
+/-- ureq_client.rs after a successful engine call. A Content-Type the engine hides (`header()` = None although
+`headers_names()` lists it): the pinned tree rebuilt the response WITHOUT a Content-Type (finding F7: the caller then
+skips its media-type check); the current tree returns `HttpClientError::Other`. -/
+def ureqRebuild (v : Version) (h : Head) (body : Option Bytes) : Outcome :=
+  if h.ctHidden then
+    match v with
+    | .pinned => rebuild { h with contentType := none } body .io
+    | .fixed => if !statusOk h.status then .error .http else .error .other
+  else rebuild h body .io
+
 /-- The adapter glue, per source file.  Every `Err(e)` of the engine goes through
 `.map_err(Box::new)?` → `HttpClientError::Reqwest(Box<e>)`. -/
 def glue (v : Version) : Id → LibResult → Outcome
@@ -128,17 +148,37 @@ def glue (v : Version) : Id → LibResult → Outcome
   | .reqwestBlocking, .ok h b => copyAll h b .io
   | .reqwestBlocking, _ => .error .lib
   -- `transfer.perform().map_err(Box::new)?`; the body was accumulated by `write_function` during perform
-  | .curl, .ok h b => rebuild h b .lib
+  -- `easy.content_type().map_err(Box::new)?` comes before the header is rebuilt
+  | .curl, .ok h b => if h.ctUnreadable then .error .lib else rebuild h b .lib
   | .curl, _ => .error .lib
   -- `req.send_bytes(request.body()).map_err(Box::new)?` … `response.into_reader().read_to_end(&mut body)?`
-  | .ureq, .ok h b => rebuild h b .io
+  | .ureq, .ok h b => ureqRebuild v h b
   | .ureq, .statusErr h b =>
       match v with
       | .pinned => .error .lib               -- pinned tree: every `Err(_)`, `Status` included, is boxed and returned
-      | .fixed => rebuild h b .io            -- F4 patch: `Err(ureq::Error::Status(_, response)) => response`
+      | .fixed => ureqRebuild v h b          -- F4 patch: `Err(ureq::Error::Status(_, response)) => response`
   | .ureq, .transportErr => .error .lib
 
 def headOf (r : WireReply) : Head := { status := r.status, contentType := r.contentType }
+
+/-- every byte visible ASCII, blank or TAB (ureq 2.x `is_field_vchar_or_obs_fold`) -/
+def visibleByte (b : UInt8) : Bool := (0x20 ≤ b && b ≤ 0x7E) || b == 9
+def visibleAscii (v : Bytes) : Bool := v.all visibleByte
+
+/-- ASSUMED: what each engine shows of a head's Content-Type -/
+def headFor (a : Id) (h : Head) : Head :=
+  match a, h.contentType with
+  | .ureq, some v => if visibleAscii v then h else { h with contentType := none, ctHidden := true }
+  | .curl, some v => if Json.validUtf8 v then h else { h with contentType := none, ctUnreadable := true }
+  | _, _ => h
+
+/-- the replies whose Content-Type the engine of adapter `a` can show: all for reqwest; valid UTF-8 for curl;
+visible ASCII for ureq -/
+def EngineReadable (a : Id) (r : WireReply) : Bool :=
+  match a, r.contentType with
+  | .ureq, some v => visibleAscii v
+  | .curl, some v => Json.validUtf8 v
+  | _, _ => true
 
 /-- ASSUMED third-party contract (validated by sampling only, never proved): what each engine
 returns for a complete, well-formed reply and for each fault.
@@ -153,8 +193,8 @@ returns for a complete, well-formed reply and for each fault.
 def lib (a : Id) : WireReply ⊕ Fault → LibResult
   | .inl r =>
       match a with
-      | .ureq => if 400 ≤ r.status then .statusErr (headOf r) (some r.body) else .ok (headOf r) (some r.body)
-      | _ => .ok (headOf r) (some r.body)
+      | .ureq => if 400 ≤ r.status then .statusErr (headFor a (headOf r)) (some r.body) else .ok (headFor a (headOf r)) (some r.body)
+      | _ => .ok (headFor a (headOf r)) (some r.body)
   | .inr (.truncatedBody h) =>
       match a with
       | .curl => .transportErr
